@@ -338,6 +338,16 @@ static void send_scenarios(const std::string& which)
 		}
 		control_check(f, "batch of three application messages");
 	}
+	if (which == "send_big")
+	{
+		// C03: a field value longer than the encode buffer of send_process (no sanitizer in this harness: the overflow shows as a crash or as a corrupted frame)
+		Fx f; f.logon(1); f.conn->_output.clear();
+		NewOrderSingle *m = new_order("big"); *m << new Text(std::string(20000, 'x'));
+		printf("{\"scenario\":\"order with a 20000-byte Text through the real send_process\",\"about_to_send\":true}\n"); fflush(stdout);
+		const bool r = f.ss->send(m);
+		const size_t n = f.conn->_output.empty() ? 0 : f.conn->_output.back().size();
+		if (!(r && n > 20000)) REPORT("{\"scenario\":\"order with a 20000-byte Text\",\"returned\":%d,\"bytes_on_the_wire\":%zu}", (int)r, n);
+	}
 	if (which == "send_renumber" || which == "send")
 	{
 		Fx f; f.logon(1);
